@@ -1,133 +1,153 @@
 package main
 
 import (
-	"go/token"
+	"fmt"
+	"sort"
+	"strings"
 
 	"golang.org/x/tools/go/ssa"
 )
 
-// roundRobinCoverage (R09.5): the probing loops of clientConns.roundRobin together visit as many indices as there
-// are connections. Each counting loop contributes  bound - start  iterations (start/bound read off its induction
-// variable); the sum over the loops that test Closed().IsSet() must be the linear expression len(c.conns) - the
-// random start cancels:  (len - i) + (i - 0)  for the two-loop form,  len - 0  for a single wrapped loop. Dropping
-// the wrap-around loop leaves len - i: a live connection before the random start is never found and the client
-// redials (or fails) although a usable connection exists. Loops of a shape other than a counting loop are not
-// decided (no report).
-func roundRobinCoverage(c *Ctx, r *R, f *ssa.Function) {
-	e := newBE(c)
-	e.stablePtrFields = true
-	key := fnKey(f) + "/probes-every-conn"
-	var total *Lin
-	nloops := 0
-	for _, b := range f.Blocks {
-		// header: a phi with a back edge
-		for _, ins := range b.Instrs {
-			phi, ok := ins.(*ssa.Phi)
-			if !ok {
-				break
-			}
-			if !isIntegerType(phi.Type()) || len(phi.Edges) != 2 || !e.isLoopHeaderPhi(phi) {
-				continue
-			}
-			// which edge is the back edge
-			back := -1
-			for i, pr := range b.Preds {
-				if b.Dominates(pr) {
-					back = i
+// R09.8: no lock is left held. In packages mpx and rpc every sync.Mutex / RWMutex acquired by a function is
+// released on every path to every return of that function - by a deferred Unlock registered while the lock is held,
+// or by an explicit Unlock on the path. A return that leaves a connection/client/channel mutex locked blocks every
+// later operation on that object forever (no "non-OK status within bounded time").
+
+func init() {
+	register(&Rule{ID: "R09.8", Props: []string{"C09", "C19", "C18", "C04"}, Floor: 16,
+		Doc: "lock pairing: every Lock/RLock in mpx and rpc is matched by an Unlock/RUnlock (explicit or deferred) on every path to every return of the acquiring function",
+		Run: runR09_8})
+}
+
+func mutexCall(call ssa.CallInstruction) (path, op string, ok bool) {
+	o := calleeObj(call)
+	if o == nil || o.Pkg() == nil || o.Pkg().Path() != "sync" {
+		return "", "", false
+	}
+	name := objName(o)
+	switch name {
+	case "Mutex.Lock", "RWMutex.Lock", "Mutex.Unlock", "RWMutex.Unlock", "RWMutex.RLock", "RWMutex.RUnlock":
+	default:
+		return "", "", false
+	}
+	args := call.Common().Args
+	if len(args) == 0 {
+		return "", "", false
+	}
+	p := valueSource(args[0])
+	if p == "" {
+		p = args[0].Name()
+	}
+	op = name[strings.Index(name, ".")+1:]
+	kind := "w"
+	if strings.HasPrefix(op, "R") {
+		kind = "r"
+	}
+	return kind + p, op, true
+}
+
+func runR09_8(c *Ctx, r *R) {
+	n := 0
+	outer := r
+	for _, rel := range []string{"mpx", "rpc"} {
+		// a mutex of a pooled call/channel state that is left locked travels to the next user of the state (C18,
+		// and for rpc the next call hangs: C04); the client/server mutexes of mpx are C19's
+		props := []string{"C09", "C18", "C19"}
+		if rel == "rpc" {
+			props = []string{"C09", "C18", "C04"}
+		}
+		r := &R{c: c, rule: &Rule{ID: outer.rule.ID, Props: props}}
+		defer func() { outer.n += r.n }()
+		for _, fn := range c.SrcFuncs(rel) {
+			hasLock := false
+			for _, call := range callsIn(fn, false) {
+				if _, op, ok := mutexCall(call); ok && (op == "Lock" || op == "RLock") {
+					hasLock = true
 				}
 			}
-			if back < 0 {
+			if !hasLock {
 				continue
 			}
-			init := phi.Edges[1-back]
-			next, ok := phi.Edges[back].(*ssa.BinOp)
-			if !ok || next.Op != token.ADD || next.X != ssa.Value(phi) {
-				continue
-			}
-			if k, isK := constInt(next.Y); !isK || k != 1 {
-				continue
-			}
-			// the loop body tests Closed().IsSet()?
-			probes := false
-			body := map[*ssa.BasicBlock]bool{}
-			for blk := range reachableFrom(b) {
-				if reachableFrom(blk)[b] {
-					body[blk] = true
+			fl := &Flow{Must: false, Entry: Facts{}}
+			fl.Transfer = func(i ssa.Instruction, f Facts) {
+				call, ok := i.(ssa.CallInstruction)
+				if !ok {
+					return
 				}
-			}
-			body[b] = true
-			for blk := range body {
-				for _, j := range blk.Instrs {
-					if call, ok := j.(*ssa.Call); ok && call.Call.IsInvoke() && call.Call.Method.Name() == "Closed" {
-						probes = true
+				p, op, ok := mutexCall(call)
+				if !ok {
+					return
+				}
+				_, isDefer := i.(*ssa.Defer)
+				switch {
+				case isDefer && (op == "Unlock" || op == "RUnlock"):
+					f["deferred:"+p] = true
+				case op == "Lock" || op == "RLock":
+					f["held:"+p+"@"+c.pos(call.Pos())] = true
+				case op == "Unlock" || op == "RUnlock":
+					for k := range f {
+						if strings.HasPrefix(k, "held:"+p+"@") {
+							delete(f, k)
+						}
 					}
 				}
 			}
-			if !probes {
-				continue
+			res := fl.Run(fn)
+			// one obligation per Lock site
+			bad := map[string][]string{}
+			sites := map[string]ssa.CallInstruction{}
+			for _, call := range callsIn(fn, false) {
+				if p, op, ok := mutexCall(call); ok && (op == "Lock" || op == "RLock") {
+					if _, isDefer := call.(*ssa.Defer); !isDefer {
+						sites["held:"+p+"@"+c.pos(call.Pos())] = call
+					}
+				}
 			}
-			// the exit test: phi < bound (for ;;) or phi+1 < bound (range)
-			var trips *Lin
-			for blk := range body {
-				iff, ok := blk.Instrs[len(blk.Instrs)-1].(*ssa.If)
-				if !ok {
+			for _, ret := range returnsOf(fn) {
+				f := res.At(ret)
+				if f == nil || f["BOT"] {
 					continue
 				}
-				cmp, ok := iff.Cond.(*ssa.BinOp)
-				if !ok || cmp.Op != token.LSS || !body[blk.Succs[0]] || body[blk.Succs[1]] {
-					continue
+				for k := range f {
+					if !strings.HasPrefix(k, "held:") {
+						continue
+					}
+					p := strings.TrimPrefix(k[:strings.LastIndex(k, "@")], "held:")
+					// a deferred Unlock counts only if it is registered on every path to this return
+					deferred := false
+					for _, call := range callsIn(fn, false) {
+						if d, isDefer := call.(*ssa.Defer); isDefer {
+							if p2, op, ok := mutexCall(call); ok && p2 == p && (op == "Unlock" || op == "RUnlock") && dominatesInstr(d, ret) {
+								deferred = true
+							}
+						}
+					}
+					if deferred {
+						continue
+					}
+					bad[k] = append(bad[k], c.pos(ret.Pos()))
 				}
-				switch {
-				case cmp.X == ssa.Value(phi):
-					t := e.expand(cmp.Y).sub(e.expand(init))
-					trips = &t
-				case cmp.X == ssa.Value(next) && blk.Succs[0] == b:
-					// rotated loop (for j := range n): the test sits behind the body, the first iteration runs
-					// with the start value under the guard start < bound
-					t := e.expand(cmp.Y).sub(e.expand(init))
-					trips = &t
-				case cmp.X == ssa.Value(next):
-					// range over a slice: the index is advanced, then tested, then used
-					t := e.expand(cmp.Y).sub(e.expand(init).addK(1))
-					trips = &t
+			}
+			var keys []string
+			for k := range sites {
+				keys = append(keys, k)
+			}
+			sort.Strings(keys)
+			cnt := map[string]int{}
+			for _, k := range keys {
+				call := sites[k]
+				lbl := calleeLabel(call)
+				cnt[lbl]++
+				n++
+				key := fmt.Sprintf("%s/%s#%d", fnKey(fn), lbl, cnt[lbl])
+				if rets := bad[k]; len(rets) > 0 {
+					sort.Strings(rets)
+					r.Bad(key, call.Pos(), "the mutex acquired here may still be held at the return(s) at %v (no Unlock on that path and none deferred): every later operation on the object blocks forever", rets)
+				} else {
+					r.OK(key, call.Pos(), "released on every path to every return (explicit or deferred Unlock)")
 				}
 			}
-			if trips == nil {
-				r.OK(key, f.Pos(), "not decided: a probing loop is not a counting loop")
-				return
-			}
-			nloops++
-			if total == nil {
-				total = trips
-			} else {
-				t := total.add(*trips)
-				total = &t
-			}
 		}
 	}
-	if total == nil {
-		r.OK(key, f.Pos(), "not decided: no counting loop probes the connections")
-		return
-	}
-	// len(c.conns)
-	var want *Lin
-	for _, call := range callsIn(f, false) {
-		cv, ok := call.(*ssa.Call)
-		if !ok {
-			continue
-		}
-		if bi, ok := cv.Call.Value.(*ssa.Builtin); ok && bi.Name() == "len" {
-			l := e.expand(cv)
-			want = &l
-			if total.equal(l) {
-				r.OK(key, f.Pos(), "%d probing loop(s) visit len(conns) indices in total", nloops)
-				return
-			}
-		}
-	}
-	if want == nil {
-		r.OK(key, f.Pos(), "not decided: no len(conns)")
-		return
-	}
-	r.Bad(key, f.Pos(), "the probing loops visit %s indices, not all %s connections: a live connection outside the probed range is never found, the client dials again or fails although a usable connection exists", total.String(e.name), want.String(e.name))
+	r.Note("%d lock sites", n)
 }
